@@ -37,7 +37,7 @@ theorem normal_eq_outward (d k : Nat) (hd : d = 1 ∨ d = 2) (hk : k < 2 * d) :
 /-- squared mismatch at one border point, weighted -/
 def pointVal (w : ℚ) (s : FacetSpec) (n : List ℚ) (uval : List ℚ → List ℚ)
     (jac : List ℚ → List (List ℚ)) (p : List ℚ) : ℚ :=
-  w * ((mismatch s n uval jac p).map sq).sum
+  w * ((mismatch s n uval jac p).map sqr).sum
 
 theorem sumFacets_append (g : FacetSpec → Nat → ℚ) (l₁ l₂ : List (Option FacetSpec)) (i : Nat) :
     sumFacets g (l₁ ++ l₂) i = sumFacets g l₁ i + sumFacets g l₂ (i + l₁.length) := by
@@ -70,15 +70,21 @@ theorem sumFacets_eq_sum_range (g : FacetSpec → Nat → ℚ) (l : List (Option
       simp only [contribution, List.getElem?_cons_succ]
       have : i + (k + 1) = i + 1 + k := by omega
       rw [this]
+    have hmap : (List.map (fun k => contribution (fun s j => g s (i + 1 + j)) l k) (List.range l.length))
+        = List.map (fun k => contribution (fun s j => g s (i + j)) (o :: l) (k + 1))
+            (List.range l.length) := by
+      apply List.map_congr_left
+      intro k _
+      exact (hshift k).symm
     cases o with
     | none =>
       simp only [sumFacets, List.length_cons, List.range_succ_eq_map, List.map_cons, List.sum_cons,
-        List.map_map, ih (i + 1)]
-      simp [contribution, Function.comp_def, hshift]
+        List.map_map, ih (i + 1), hmap]
+      simp [contribution, Function.comp_def]
     | some s =>
       simp only [sumFacets, List.length_cons, List.range_succ_eq_map, List.map_cons, List.sum_cons,
-        List.map_map, ih (i + 1)]
-      simp [contribution, Function.comp_def, hshift]
+        List.map_map, ih (i + 1), hmap]
+      simp [contribution, Function.comp_def]
 
 /-- **the boundary term is the sum over the facets that carry a condition of that facet's own
     term** (`facetLoss … k` reads `border[..., k]` only, see `facetLoss_eq`); a facet without
@@ -99,7 +105,7 @@ theorem facetLoss_eq (w : ℚ) (s : FacetSpec) (hasTime : Bool) (uval : List ℚ
     (hd : spaceDim hasTime b = 1 ∨ spaceDim hasTime b = 2) (hk : k < 2 * spaceDim hasTime b) :
     facetLoss w s hasTime uval jac b k =
       w * mean ((facetPts b k).map fun p =>
-        ((mismatch s (outward (spaceDim hasTime b) k) uval jac p).map sq).sum) := by
+        ((mismatch s (outward (spaceDim hasTime b) k) uval jac p).map sqr).sum) := by
   unfold facetLoss
   rw [normal_eq_outward _ _ hd hk]
   exact mean_map_mul_left w _ _
@@ -177,13 +183,13 @@ theorem boundary_fshape_indep (w : ℚ) (spec : Spec) (hasTime : Bool) (uval : L
 
 /-! ### an exactly matched condition gives 0 -/
 
-theorem sum_map_sq_zero (l : List ℚ) (h : ∀ x ∈ l, x = 0) : (l.map sq).sum = 0 := by
+theorem sum_map_sq_zero (l : List ℚ) (h : ∀ x ∈ l, x = 0) : (l.map sqr).sum = 0 := by
   induction l with
   | nil => simp
   | cons a l ih =>
     have ha : a = 0 := h a (by simp)
     have hl : ∀ x ∈ l, x = 0 := fun x hx => h x (by simp [hx])
-    simp [ih hl, ha, sq]
+    simp [ih hl, ha, LossTerms.sqr]
 
 /-- if `f` equals the selected components of `u` (Dirichlet) or its derivative along the facet's
     normal (Neumann) at every point of the facet, the facet's term is exactly `0` -/
@@ -193,7 +199,7 @@ theorem facetLoss_zero_of_match (w : ℚ) (s : FacetSpec) (hasTime : Bool) (uval
     facetLoss w s hasTime uval jac b k = 0 := by
   unfold facetLoss
   have : ∀ pts : List (List ℚ), (∀ p ∈ pts, p ∈ facetPts b k) →
-      (pts.map fun p => w * ((mismatch s (normal (spaceDim hasTime b) k) uval jac p).map sq).sum)
+      (pts.map fun p => w * ((mismatch s (normal (spaceDim hasTime b) k) uval jac p).map sqr).sum)
         = pts.map fun _ => (0 : ℚ) := by
     intro pts hp
     apply List.map_congr_left
@@ -204,8 +210,9 @@ theorem facetLoss_zero_of_match (w : ℚ) (s : FacetSpec) (hasTime : Bool) (uval
 
 /-! ### time points -/
 
-theorem getD_replicate (n : Nat) (t : ℚ) (k : Nat) (hk : k < n) : (List.replicate n t).getD k 0 = t := by
-  simp [List.getD, List.getElem?_replicate, hk]
+theorem getD_replicate (n : Nat) (t : ℚ) (k : Nat) (hk : k < n) :
+    (List.replicate n t)[k]?.getD 0 = t := by
+  simp [hk]
 
 /-- facet `k` of a times × border product batch: every time paired with every point of facet `k`
     of the border batch, times varying slowest -/
@@ -221,7 +228,7 @@ theorem facetPts_productRows (ts : List ℚ) (dx : Border) (k : Nat) (hk : k < n
     congr 1
     apply List.map_congr_left
     intro row _
-    simp [Function.comp_def, getD_replicate _ _ _ hk]
+    simp [getD_replicate _ _ _ hk]
 
 theorem sum_flatMap {α : Type} (ts : List α) (g : α → List ℚ) :
     (ts.flatMap g).sum = (ts.map fun t => (g t).sum).sum := by
@@ -280,6 +287,12 @@ theorem facetLoss_time_indep (val : List ℚ → ℚ) (val0 : List ℚ → ℚ) 
   simp only [List.map_const', List.sum_replicate, List.length_replicate, nsmul_eq_mul, List.length_map]
   field_simp
 
+theorem mean_append_self (l : List ℚ) : mean (l ++ l) = mean l := by
+  simp only [mean, List.sum_append, List.length_append, Nat.cast_add]
+  have e : ((l.length : ℚ) + (l.length : ℚ)) = 2 * (l.length : ℚ) := by ring
+  rw [e, div_eq_mul_inv, div_eq_mul_inv, mul_inv]
+  ring
+
 /-- **repeating the rows of the batch (twice as many time points, same time set) leaves the
     facet's term unchanged** -/
 theorem facetLoss_dup_rows (w : ℚ) (s : FacetSpec) (hasTime : Bool) (uval : List ℚ → List ℚ)
@@ -289,12 +302,8 @@ theorem facetLoss_dup_rows (w : ℚ) (s : FacetSpec) (hasTime : Bool) (uval : Li
     cases b <;> simp [spaceDim, nCoords]
   unfold facetLoss
   rw [hd]
-  simp only [facetPts, List.map_append, mean, List.sum_append, List.length_append, List.length_map,
-    Nat.cast_add]
-  generalize (List.map _ (List.map _ b)).sum = S
-  have e : ((b.length : ℚ) + (b.length : ℚ)) = 2 * (b.length : ℚ) := by ring
-  rw [e, div_eq_mul_inv, div_eq_mul_inv, mul_inv]
-  ring
+  simp only [facetPts, List.map_append]
+  exact mean_append_self _
 
 /-! ### non-vacuity -/
 
@@ -310,13 +319,13 @@ example :
     boundary 3 (.perFacet [some ⟨.neumann, none, fun _ => .scalar 2⟩, some ⟨.neumann, none, fun _ => .vec [4]⟩])
       false (fun p => [p.headD 0 * p.headD 0]) (fun p => [[2 * p.headD 0]]) [[[-1, 2]]] = 0 := by
   norm_num [boundary, Spec.facets, sumFacets, facetLoss, facetPts, mismatch, normal, normal1, spaceDim,
-    nCoords, Slice.apply, dot, FRet.bcast, LossTerms.sub, mean, sq]
+    nCoords, Slice.apply, dot, FRet.bcast, LossTerms.sub, mean, LossTerms.sqr]
 
 example :
     boundary 3 (.perFacet [some ⟨.neumann, none, fun _ => .scalar (-2)⟩, none])
       false (fun p => [p.headD 0 * p.headD 0]) (fun p => [[2 * p.headD 0]]) [[[-1, 2]]] = 48 := by
   norm_num [boundary, Spec.facets, sumFacets, facetLoss, facetPts, mismatch, normal, normal1, spaceDim,
-    nCoords, Slice.apply, dot, FRet.bcast, LossTerms.sub, mean, sq]
+    nCoords, Slice.apply, dot, FRet.bcast, LossTerms.sub, mean, LossTerms.sqr]
 
 /-- hypotheses of the product theorems are met: a 2-D border batch with 4 facets, two times -/
 example : nFacets [[[-1, 2, 0, 1], [0, 1, -1, 2]]] = 4 := rfl
